@@ -1715,10 +1715,11 @@ impl Rem<Vec3A> for Vec3A {
     type Output = Self;
     #[inline]
     fn rem(self, rhs: Self) -> Self {
-        unsafe {
-            let n = m128_floor(_mm_div_ps(self.0, rhs.0));
-            Self(_mm_sub_ps(self.0, _mm_mul_ps(n, rhs.0)))
-        }
+        Self::new(
+            self.x.rem(rhs.x),
+            self.y.rem(rhs.y),
+            self.z.rem(rhs.z),
+        )
     }
 }
 
